@@ -82,7 +82,7 @@ func histConfigs() []histCfg {
 			}
 		}
 	}
-	for _, id := range []string{"mapfs", "dirfs"} {
+	for _, id := range []string{"mapfs", "dirfs", "rootfs"} {
 		for i := range fsPhase.Roots {
 			if fsPhase.Roots[i].ID == id {
 				out = append(out, histCfg{ID: "fs:" + id, Part: "fs", Root: &fsPhase.Roots[i]})
@@ -120,7 +120,7 @@ type opResult struct {
 
 func (sb *sandbox) histVerdict(cfg *histCfg, cwd *node, L, loc string) verdict {
 	if cfg.Part == "fs" {
-		v, _ := sb.fsVerdict(cfg.Root.Spelling == "dirfs", L, "", loc, false)
+		v, _ := sb.fsVerdict(onDisk(cfg.Root.Spelling), L, "", loc, false)
 		return v
 	}
 	v, _ := sb.rflVerdict(cwd, L, "", loc, false)
@@ -128,7 +128,7 @@ func (sb *sandbox) histVerdict(cfg *histCfg, cwd *node, L, loc string) verdict {
 }
 
 func (r *opResult) judge(sb *sandbox, cfg *histCfg, cwd *node, entry int) {
-	dirfs := cfg.Part == "fs" && cfg.Root.Spelling == "dirfs"
+	dirfs := cfg.Part == "fs" && followsLinksOut(cfg.Root.Spelling)
 	r.kind, r.oclass, r.expected = judge(cfg.Part, dirfs, &r.vd, entry, &r.o)
 	if r.kind != "" {
 		d := &drv{}
